@@ -5,7 +5,7 @@ PROP = {'tables': ['C14'], 'n_quick': 40,
  'audit_maxlen': 9000,
  'rule': 'lock time: every assignment of {none,time,height,both} to 0..3 inputs (0..4 thorough) x fallback present/absent with boundary and random values; '
          'from_tx/extract_tx over the 9-bit transaction feature lattice (pegin, explicit/confidential issuance, coinbase index, confidential / partially '
-         'blinded / explicit outputs with and without nonces, script_sig and witnesses); extract_tx of randomly populated PSETs; unique id before/after the '
+         'blinded / explicit outputs with and without nonces, script_sig and witnesses); extract_tx of randomly populated PSETs; extract_tx with the explicit field and the commitment both present (all presence combinations for issuance amount x inflation keys and output amount x asset); a later role revealing explicit values next to existing commitments (uid and extracted tx compared); unique id before/after the '
          'addition of each of the 73 optional/keyed fields; distinct = distinct case text; non-trivial = at least one optional field or requirement beyond the '
          'mandatory ones',
  'trusted': ["transactions are records of fields (their consensus encoding is C01's model); the txid is an abstract function of the transaction without "
@@ -21,7 +21,7 @@ TEXT = {'text': 'Kernel-checked theorems: PartiallySignedTransaction::locktime e
          'class F8b, nonce of an unblinded output, is excluded and refuted by a witness); extraction is the field-wise function with the BIP370 lock time '
          '(C08_extract_reflects); the unique-id pre-image is a function of an explicit field list that contains none of the fields the property names as neutral, '
          'hence unique_id is invariant under sequence, signature, final script sig/witness, script, derivation and proof updates (C08_uid_depends, C08_uid_invariant, '
-         'C08_uid_known_class = []). Model and crate are run on the same PSETs and transactions on every check.',
+         'C08_uid_known_class = []); revealing an explicit issuance amount / inflation-keys / output amount / asset next to a commitment that is already present changes neither the extracted transaction nor the unique id (C08_reveal_keeps_extraction, C08_reveal_keeps_uid). Model and crate are run on the same PSETs and transactions on every check.',
  'design_ref': 'DESIGN.md section 6, C08',
  'note': 'Trusted: Coq kernel; translator anchors (match arms of locktime(), resets in unique_id(), body of is_pegin()); hand-written field-level model of '
          'from_tx/extract_tx; txid abstract; BIP370 transcription; harness listing code.',
